@@ -8,8 +8,8 @@ from pool import Pool
 from specs import SPECS
 
 VERIF = K.VERIF
-EVID = os.path.join(VERIF, "evidence")
-REPLAYS = os.path.join(VERIF, "replays")
+EVID = os.environ.get("VERIF_EVIDENCE", os.path.join(VERIF, "evidence"))
+REPLAYS = os.path.join(os.environ["VERIF_BUILD"], "replays") if os.environ.get("VERIF_BUILD") else os.path.join(VERIF, "replays")
 KNOWN = os.path.join(VERIF, "known_findings.txt")
 MAX_REPLAYS = int(os.environ.get("VERIF_MAX_REPLAYS", "2"))
 
